@@ -69,6 +69,7 @@ type HarnessRun struct {
 	Bounds       map[string]string
 	Assumptions  map[string]bool
 	wall         time.Duration
+	merged       int
 	stop         int32
 }
 
@@ -118,6 +119,8 @@ type Path struct {
 	maxAlloc int
 	mapMode  int
 	nq       int
+	spec     int
+	noMerge  bool
 	where    func() string
 }
 
@@ -281,6 +284,9 @@ func (p *Path) Branch(c *Term) bool {
 	if c.IsConst() {
 		return c.Bool()
 	}
+	if p.spec > 0 {
+		panic(specAbort{})
+	}
 	if p.pcIDs[c.id] {
 		return true
 	}
@@ -332,6 +338,9 @@ func (p *Path) whereHint() string {
 
 // Assume restricts the path; ends it when infeasible.
 func (p *Path) Assume(c *Term) {
+	if p.spec > 0 {
+		panic(specAbort{})
+	}
 	if c.IsConst() {
 		if !c.Bool() {
 			panic(pathEnd{"infeasible", "assume(false)"})
@@ -358,6 +367,9 @@ func (p *Path) Assume(c *Term) {
 
 // Check discharges an obligation: pc ⇒ c.
 func (p *Path) Check(id string, c *Term, where string, isPanic bool) {
+	if p.spec > 0 {
+		panic(specAbort{})
+	}
 	if p.replaying() {
 		p.assertPC(c)
 		return
@@ -410,10 +422,17 @@ func (p *Path) Check(id string, c *Term, where string, isPanic bool) {
 }
 
 func (p *Path) ConcretePanic(msg, where string) {
+	if p.spec > 0 {
+		panic(specAbort{})
+	}
 	if !p.replaying() {
 		p.violation("no-panic", where, msg, p.model)
 	}
 	panic(pathEnd{"panic", msg})
+}
+
+func (p *Path) decided(c *Term) bool {
+	return p.pcIDs[c.id] || p.pcIDs[p.ts.Not(c).id]
 }
 
 func (p *Path) Inconclusive(msg string) {
@@ -459,6 +478,9 @@ func (p *Path) Concretize(t *Term, what string) uint64 {
 	if t.IsConst() {
 		return t.U64()
 	}
+	if p.spec > 0 {
+		panic(specAbort{})
+	}
 	w := t.sort.Width()
 	if p.replaying() {
 		d := p.prefix[p.pos]
@@ -500,6 +522,9 @@ func (p *Path) Concretize(t *Term, what string) uint64 {
 func (p *Path) Choose(n int) int {
 	if n <= 1 {
 		return 0
+	}
+	if p.spec > 0 {
+		panic(specAbort{})
 	}
 	if p.replaying() {
 		d := p.prefix[p.pos]
@@ -598,6 +623,8 @@ func (r *HarnessRun) note(m *map[string]int, s string) {
 
 // ---------- running a harness ----------
 
+var cpuSem chan struct{}
+
 func newRun(name string, cfg *Config) *HarnessRun {
 	return &HarnessRun{Name: name, cfg: cfg, Obs: map[string]*ObStat{}, Covers: map[string]int{}, violSeen: map[string]int{},
 		Inconclusive: map[string]int{}, Unsupported: map[string]int{}, FnInstr: map[string]int{}, KnownHit: map[string]int{},
@@ -624,12 +651,12 @@ func (w *World) Explore(h *harnessFn, cfg *Config) *HarnessRun {
 		wg.Add(1)
 		go func() {
 			defer wg.Done()
-			proc, err := startProc(incrementalSolver(), cfg.QueryMs)
-			if err != nil {
-				run.note(&run.Inconclusive, "cannot start z3: "+err.Error())
-				return
-			}
-			defer proc.close()
+			var proc *Proc
+			defer func() {
+				if proc != nil {
+					proc.close()
+				}
+			}()
 			for {
 				mu.Lock()
 				for len(queue) == 0 && outstanding > 0 {
@@ -644,7 +671,19 @@ func (w *World) Explore(h *harnessFn, cfg *Config) *HarnessRun {
 				it := queue[len(queue)-1]
 				queue = queue[:len(queue)-1]
 				mu.Unlock()
-				w.runPath(h, run, cfg, proc, it, push)
+				cpuSem <- struct{}{}
+				if proc == nil || proc.dead {
+					var err error
+					proc, err = startProc(incrementalSolver(), cfg.QueryMs)
+					if err != nil {
+						run.note(&run.Inconclusive, "cannot start solver: "+err.Error())
+						proc = nil
+					}
+				}
+				if proc != nil {
+					w.runPath(h, run, cfg, proc, it, push)
+				}
+				<-cpuSem
 				mu.Lock()
 				outstanding--
 				done := outstanding == 0
